@@ -319,8 +319,29 @@ def closeConn (R : RespTab) (c : Conn) : RespTab × Conn × List Ev :=
 
 /-- the reply has been sent completely: connection_reset -/
 def finishReply (R : RespTab) (c : Conn) : RespTab × Conn × Disp × List Ev :=
-  match closeConn R c with
-  | (R', c', e) => (R', { c' with closeAfter := false }, if c.closeAfter then .clean else .keep, e)
+  let q := closeConn R c
+  (q.1, { q.2.1 with closeAfter := false }, if c.closeAfter then .clean else .keep, q.2.2)
+
+/-- queue response `r` on connection `c` (the application's handler does it) and run the reply -/
+def doReply (cfg : Cfg) (R : RespTab) (c : Conn) (r : Nat) (cl : Bool) : RespTab × Conn × Disp × List Ev :=
+  if isUpg R r && !cfg.allowUpgrade then (R, { c with req := none }, .clean, [.queued c.id r false]) else
+  match acquire R r with
+  | none => (R, { c with req := none }, .clean, [.queued c.id r false])   -- handler returns MHD_NO
+  | some R1 =>
+    let c1 : Conn := { c with req := none, resp := some r }
+    if c.clientClosed then
+      -- the reply cannot be delivered: connection closed with error, response given back
+      let q := closeConn R1 c1
+      (q.1, q.2.1, .clean, [.queued c.id r true] ++ q.2.2)
+    else if isUpg R r then
+      -- 101 sent, MHD_response_execute_upgrade_: suspended with urh, response given back
+      let q := closeConn R1 c1
+      (q.1, { q.2.1 with urh := true }, .susp, [.queued c.id r true, .upgraded c.id] ++ q.2.2)
+    else if isBig R r && c.nodrain then
+      (R1, { c1 with held := true, closeAfter := cl }, .keep, [.queued c.id r true])
+    else
+      let q := finishReply R1 { c1 with closeAfter := cl }
+      (q.1, q.2.1, q.2.2.1, [.queued c.id r true] ++ q.2.2.2)
 
 /-- the pending request (if any) reaches the application -/
 def handleReq (cfg : Cfg) (R : RespTab) (c : Conn) : RespTab × Conn × Disp × List Ev :=
@@ -329,38 +350,24 @@ def handleReq (cfg : Cfg) (R : RespTab) (c : Conn) : RespTab × Conn × Disp × 
   | some (.suspend r) =>
     if cfg.allowSuspend then (R, { c with req := some (.reply r true) }, .susp, [.suspended c.id])
     else ({ R with fault := some .suspendNotAllowed }, c, .keep, [.panic .suspendNotAllowed])
-  | some (.reply r cl) =>
-    if isUpg R r && !cfg.allowUpgrade then (R, { c with req := none }, .clean, [.queued c.id r false]) else
-    match acquire R r with
-    | none => (R, { c with req := none }, .clean, [.queued c.id r false])   -- handler returns MHD_NO
-    | some R1 =>
-      let c1 := { c with req := none, resp := some r }
-      if c.clientClosed then
-        -- the reply cannot be delivered: connection closed with error, response given back
-        match closeConn R1 c1 with
-        | (R2, c2, e) => (R2, c2, .clean, [.queued c.id r true] ++ e)
-      else if isUpg R r then
-        -- 101 sent, MHD_response_execute_upgrade_: suspended with urh, response given back
-        match closeConn R1 c1 with
-        | (R2, c2, e) => (R2, { c2 with urh := true }, .susp, [.queued c.id r true, .upgraded c.id] ++ e)
-      else if isBig R r && c.nodrain then
-        (R1, { c1 with held := true, closeAfter := cl }, .keep, [.queued c.id r true])
-      else
-        match finishReply R1 { c1 with closeAfter := cl } with
-        | (R2, c2, d, e) => (R2, c2, d, [.queued c.id r true] ++ e)
+  | some (.reply r cl) => doReply cfg R c r cl
+
+/-- what happens to a connection that stays in `connections` after its request was handled -/
+def afterReq (R : RespTab) (c : Conn) : RespTab × Conn × Disp × List Ev :=
+  if c.clientClosed then
+    let q := closeConn R c
+    (q.1, q.2.1, .clean, q.2.2)
+  else if c.held && !c.nodrain then finishReply R c
+  else (R, c, .keep, [])
 
 /-- everything that happens to one active connection until the loop is quiet -/
 def handleConn (cfg : Cfg) (R : RespTab) (c : Conn) : RespTab × Conn × Disp × List Ev :=
-  match handleReq cfg R c with
-  | (R1, c1, .keep, e1) =>
-    if c1.clientClosed then
-      match closeConn R1 c1 with
-      | (R2, c2, e2) => (R2, c2, .clean, e1 ++ e2)
-    else if c1.held && !c1.nodrain then
-      match finishReply R1 c1 with
-      | (R2, c2, d, e2) => (R2, c2, d, e1 ++ e2)
-    else (R1, c1, .keep, e1)
-  | other => other
+  let q := handleReq cfg R c
+  match q.2.2.1 with
+  | .keep =>
+    let q2 := afterReq q.1 q.2.1
+    (q2.1, q2.2.1, q2.2.2.1, q.2.2.2 ++ q2.2.2.2)
+  | _ => q
 
 structure HAcc where
   R : RespTab
